@@ -389,6 +389,30 @@ theorem rect_setChargesB (e : Ens) (qs : List (List Num)) (e' : Ens) (hr : Rect 
   · exact rect_bind _ _ e' Rect (fun a e'' h' => rect_setCharges e a e'' hr h') h
   · cases h
 
+/-- the constructor with array arguments yields a rectangular ensemble or raises -/
+theorem rect_optSet {α : Type} (f : Ens → α → Option Ens) (hf : ∀ e a e', Rect e → f e a = some e' → Rect e')
+    (e : Ens) (a : Option α) (e' : Ens) (hr : Rect e) (h : optSet f e a = some e') : Rect e' := by
+  cases a with
+  | none => simp only [optSet] at h; injection h with h; subst h; exact hr
+  | some x => exact hf e x e' hr h
+
+theorem rect_ctorKw (nA nC : Nat) (cs : Option (List Conf)) (qs : Option (List (List Num))) (ws : Option (List Num)) (e : Ens)
+    (h : ctorKw nA nC cs qs ws = some e) : Rect e := by
+  simp only [ctorKw] at h
+  cases h1 : optSet setCoordsB (alloc nA nC) cs with
+  | none => rw [h1] at h; cases h
+  | some e1 =>
+    rw [h1] at h
+    simp only [Option.bind_some] at h
+    have r1 := rect_optSet setCoordsB (fun e a e' hr hh => rect_setCoordsB e a e' hr hh) _ cs e1 (rect_alloc nA nC) h1
+    cases h2 : optSet setChargesB e1 qs with
+    | none => rw [h2] at h; cases h
+    | some e2 =>
+      rw [h2] at h
+      simp only [Option.bind_some] at h
+      have r2 := rect_optSet setChargesB (fun e a e' hr hh => rect_setChargesB e a e' hr hh) _ qs e2 r1 h2
+      exact rect_optSet setWeightsB (fun e a e' hr hh => rect_setWeightsB e a e' hr hh) _ ws e r2 h
+
 /-! ### one step -/
 
 theorem upd_ens (w : World) (o : Option Ens) :
@@ -514,6 +538,18 @@ theorem rect_step (w : World) (op : Op) (hr : Rect w.ens) (ho : ∀ e ∈ w.othe
     · exact rect_upd w _ hr (fun e' h => rect_writeCoords _ _ _ e' hr h)
     · exact hr
   | dumpKept j => simp only [step]; (repeat' split) <;> exact hr
+  | ctorAtomsKw nA nC cs qs ws =>
+    simp only [step]
+    split
+    · rename_i e he
+      exact rect_ctorKw nA nC cs qs ws e he
+    · exact hr
+  | readAt i => simp only [step]; (repeat' split) <;> exact hr
+  | writeAt i c =>
+    simp only [step]
+    split
+    · exact rect_upd w _ hr (fun e' h => rect_writeCoords _ _ _ e' hr h)
+    · exact hr
   | reload =>
     simp only [step, reloaded]
     split
@@ -611,6 +647,7 @@ theorem others_frame (v : Variant) (w : World) (op : Op) (h : touchesOthers op =
   case loopKeep => exact ((iterNew_same v w).trans (drain_same v _ _ _)).2.1
   case readKept j => (repeat' split) <;> rfl
   case dumpKept j => (repeat' split) <;> rfl
+  case readAt i => (repeat' split) <;> rfl
 
 /-- the other live ensembles after a step are the ones before it, plus possibly the ensemble that was current
 (a copy keeps its source alive, a swap puts the current one among the others) -/
